@@ -769,10 +769,12 @@ class DnsRecordTxtValueSpfDirectiveIp4(DnsRecordTxtValueSpfDirectiveBase):
         qualifier = parser.get('qualifier', None)
         ipv4_network = cls._parse_ip_network(parser)
 
-        return cls(
-            qualifier=qualifier,
-            ipv4_network=ipv4_network,
-        ), parser.parsed_length
+        try:
+            directive = cls(qualifier=qualifier, ipv4_network=ipv4_network)
+        except (TypeError, ValueError) as e:  # not an address, or an address of the other IP version
+            six.raise_from(InvalidValue(ipv4_network, cls, 'ipv4_network'), e)
+
+        return directive, parser.parsed_length
 
     def compose(self):
         composer = self._compose_qualifier_and_mechanism_name(self.qualifier)
@@ -804,10 +806,12 @@ class DnsRecordTxtValueSpfDirectiveIp6(DnsRecordTxtValueSpfDirectiveBase):
         qualifier = parser.get('qualifier', None)
         ipv6_network = cls._parse_ip_network(parser)
 
-        return cls(
-            qualifier=qualifier,
-            ipv6_network=ipv6_network,
-        ), parser.parsed_length
+        try:
+            directive = cls(qualifier=qualifier, ipv6_network=ipv6_network)
+        except (TypeError, ValueError) as e:  # not an address, or an address of the other IP version
+            six.raise_from(InvalidValue(ipv6_network, cls, 'ipv6_network'), e)
+
+        return directive, parser.parsed_length
 
     def compose(self):
         composer = self._compose_qualifier_and_mechanism_name(self.qualifier)
